@@ -566,6 +566,9 @@ func (propC05) Exec(p *Plan, x *Ctx) *Outcome {
 	} else {
 		ch = NewPolicyChooser(x.R, p.Policy, len(p.Tasks), false)
 	}
+	if p.Cfg("coarse", "") == "on" {
+		run.SetCoarse(true)
+	}
 	run.Schedule(ch)
 	if !x.Replay && len(p.Schedule) == 0 && len(p.Tasks) > 1 {
 		p.Schedule = run.Executed
